@@ -11,6 +11,7 @@ vector has 7 entries (no condition on a plain number).
 -/
 import ChemModel.Proofs.Units
 import ChemModel.Proofs.UnitsHelpers
+import ChemModel.Proofs.UnitsReal
 
 set_option linter.unusedSectionVars false
 
@@ -87,6 +88,22 @@ theorem elementwise_nested (u : PyVal α) :
     (∀ d rs, toUnitlessDict d u = .ok rs ↔
       List.Forall₂ (fun (p : String × Val α) (r : String × Res α) => p.1 = r.1 ∧ toUnitless p.2 u = .ok r.2) d rs) :=
   ⟨toUnitless_atom u, toUnitless_str u, toUnitless_list u, toUnitless_dict u, toUnitlessList_ok_iff u, toUnitlessDict_ok_iff u⟩
+
+/-- **Plain numeric arrays.** Unless the target is a dimensionless unit of magnitude 1, a plain `np.ndarray` is converted
+    element-wise like a list (same numbers, same refusal). -/
+theorem elementwise_ndarray (xs : List α) (u : PyVal α) (h : (isUnitlessScalar u && u.eqOne) = false) :
+    toUnitless (.ndarray xs) u = (toUnitlessFlat (xs.map .num) u).map (fun ys => Res.list (ys.map .num)) := by
+  rw [toUnitless]; simp only [h]; cases toUnitlessFlat (xs.map PyVal.num) u <;> rfl
+
+/-- DEFECT (reported): for a plain `np.ndarray` and a dimensionless target unit of magnitude 1 the array is returned unchanged — the
+    shortcut test `new_unit == 1` compares the bare magnitude, so the scale factor of `cm/m`, `km/m`, … is ignored:
+    `to_unitless(np.array([790.]), cm/m)` gives `[790.]` while the scalar, list and Quantity-array forms give 79000. -/
+theorem ndarray_shortcut_defect_witness :
+    let pct : PyVal ℚ := .qty ⟨1, ⟨1/100, Dims.zero⟩⟩
+    (match toUnitless (.ndarray [790]) pct with | .ok (.list [.num x]) => some x | _ => none) = some 790 ∧
+    toUnitlessScalar (.num 790) pct = .ok 79000 ∧
+    (match toUnitless (.list [.atom (.num 790)]) pct with | .ok (.list [.num x]) => some x | _ => none) = some 79000 := by
+  decide +kernel
 
 /-! ## dimensionality, registries, derived units -/
 
@@ -184,12 +201,30 @@ theorem own_units_physical :
 
 /-! ## registry ↔ human readable -/
 
-/-- **Human-readable round trip.** For a registry whose entries are the int `1` or `factor × (one unit object)` whose
-    `u_symbol` the unit-string parser resolves to that same unit, deserialising the serialised registry gives the registry back. -/
+/-- **Human-readable round trip.** For a registry whose entries are the int `1` or `factor × (one unit object)` whose plain
+    `symbol` the unit-string parser of `quantities` resolves to a unit of the same value — every standard prefixed unit,
+    micro-prefixed ones included ('um', 'umol'), and chempy's own `micromole` (which comes back as quantities' `umol`) —
+    deserialising the serialised registry succeeds and gives back a registry with the same quantity in every entry; when
+    the parser returns the very same unit objects the registry itself is reproduced. -/
 theorem human_readable_roundtrip (lookup : String → Option (List (SymUnit α × Int))) (reg : List (RegEntry α))
-    (h : ∀ e ∈ reg, e = .num 1 ∨ ∃ mag u, e = .q mag [(u, 1)] ∧ lookup u.uSymbol = some [(u, 1)]) :
-    ∃ hs, toHuman reg = .ok hs ∧ fromHuman lookup hs = .ok reg :=
+    (h : ∀ e ∈ reg, e = .num 1 ∨
+      ∃ mag u u', e = .q mag [(u, 1)] ∧ lookup u.symbol = some [(u', 1)] ∧ u'.unit = u.unit) :
+    ∃ hs reg', toHuman reg = .ok hs ∧ fromHuman lookup hs = .ok reg' ∧
+      reg'.map RegEntry.value = reg.map RegEntry.value ∧
+      ((∀ e ∈ reg, e = .num 1 ∨ ∃ mag u, e = .q mag [(u, 1)] ∧ lookup u.symbol = some [(u, 1)]) → reg' = reg) :=
   human_roundtrip lookup reg h
+
+/-- the repaired serialisation of micro-prefixed units: micrometre is written as 'um' and read back as micrometre;
+    chempy's `micromole` (symbol 'micromole') is read back as quantities' `umol`, the same quantity -/
+example :
+    let um : SymUnit ℚ := ⟨"um", ⟨1/1000000, Dims.basis 0⟩⟩
+    let micromole : SymUnit ℚ := ⟨"micromole", ⟨1/1000000, Dims.basis 6⟩⟩
+    let umol : SymUnit ℚ := ⟨"umol", ⟨1/1000000, Dims.basis 6⟩⟩
+    let lookup : String → Option (List (SymUnit ℚ × Int)) := fun s =>
+      if s = "um" then some [(um, 1)] else if s = "micromole" ∨ s = "umol" then some [(umol, 1)] else none
+    (toHuman [RegEntry.q 1 [(um, 1)], RegEntry.q 1 [(micromole, 1)]]).toOption.bind (fun hs => (fromHuman lookup hs).toOption)
+      = some [RegEntry.q 1 [(um, 1)], RegEntry.q 1 [(umol, 1)]] := by
+  decide +kernel
 
 /-- DEFECT (outside "standard prefixed units"): `unit_registry_to_human_readable` checks only that ONE unit object occurs and drops its
     exponent — `m**2` is serialised as `(1.0, 'm')` and comes back as `m`. -/
@@ -197,15 +232,6 @@ theorem human_readable_power_defect_witness :
     let m : SymUnit ℚ := ⟨"m", ⟨1, Dims.basis 0⟩⟩
     let lookup : String → Option (List (SymUnit ℚ × Int)) := fun s => if s = "m" then some [(m, 1)] else none
     (toHuman [RegEntry.q 1 [(m, 2)]]).toOption.bind (fun hs => (fromHuman lookup hs).toOption) = some [RegEntry.q 1 [(m, 1)]] := by
-  decide +kernel
-
-/-- DEFECT: a unit whose `u_symbol` the parser of `quantities` does not know (every micro-prefixed unit: 'µm', 'µmol', and
-    chempy's own 'μmol') serialises fine and then fails to deserialise (LookupError). -/
-theorem human_readable_unknown_symbol_defect_witness :
-    let um : SymUnit ℚ := ⟨"µm", ⟨1/1000000, Dims.basis 0⟩⟩
-    let lookup : String → Option (List (SymUnit ℚ × Int)) := fun s => if s = "um" then some [(um, 1)] else none
-    toHuman [RegEntry.q 1 [(um, 1)]] = .ok [HumanEntry.fs 1 "µm"] ∧
-    fromHuman lookup [HumanEntry.fs 1 "µm"] = .error .lookupError := by
   decide +kernel
 
 /-! ## Backend wrapper -/
@@ -261,14 +287,77 @@ theorem helpers_polynomial_coefficient_units (ux uy : PyVal α) (hx : ux.WF) (hy
     (coeffUnit ux uy deg i).dims = uy.dims.add (Dims.smul ((i : ℤ) - (deg : ℤ)) ux.dims) :=
   coeffUnit_spec ux uy hx hy deg i
 
+/-- **`concatenate` equivariant.** `np.concatenate` on the magnitudes in the unit of the very first element, times that unit;
+    the physical values are the concatenation of the physical values; an element of another dimension raises ValueError;
+    no first element is an IndexError. -/
+theorem helpers_equivariant_concatenate (h : PyVal α) (t : List (PyVal α)) (rest : List (List (PyVal α)))
+    (hw : ∀ arr ∈ (h :: t) :: rest, ∀ a ∈ arr, a.WF) :
+    ((∀ arr ∈ (h :: t) :: rest, ∀ a ∈ arr, a.dims = h.dims) →
+      concatenate ((h :: t) :: rest) =
+        .ok (((((h :: t) :: rest).flatten).map fun a => a.si / (unitOfScalar h).si).map (timesUnit · (unitOfScalar h))) ∧
+      ∀ r, concatenate ((h :: t) :: rest) = .ok r → r.map PyVal.si = (((h :: t) :: rest).flatten).map PyVal.si) ∧
+    ((∃ arr ∈ (h :: t) :: rest, ∃ a ∈ arr, a.dims ≠ h.dims) → concatenate ((h :: t) :: rest) = .error .valueError) ∧
+    concatenate ([] : List (List (PyVal α))) = .error .indexError ∧
+    concatenate (([] : List (PyVal α)) :: rest) = .error .indexError :=
+  concatenate_spec h t rest hw
+
+/-- **`polyval` equivariant (Horner homogeneity).** With `u_x` the unit of `x` and `u_y` the unit of the constant coefficient:
+    `polyval` accepts exactly the coefficient lists with `dims p[i] = dims u_y + (i−deg)·dims u_x` (`coeffsCompat`), evaluates
+    `np.polyval` on the unitless coefficients `p[i]/(u_y/u_x^(deg−i))` at `x/u_x` and multiplies by `u_y`; the physical value
+    of the result is the polynomial of the PHYSICAL coefficients at the PHYSICAL argument, `Σ p[i].si · x.si^(deg−i)`
+    (`plainPolyval`), whatever units were used; any other coefficient list raises ValueError; an empty one IndexError. -/
+theorem helpers_equivariant_polyval (p0 : PyVal α) (ps : List (PyVal α)) (x : PyVal α) (hp : ∀ v ∈ p0 :: ps, v.WF) (hx : x.WF) :
+    (coeffsCompat (unitOfScalar x) (unitOfScalar ((p0 :: ps).getLast (by simp))) ps.length 0 (p0 :: ps) →
+      ∃ r, polyval (p0 :: ps) (.scalar x) = .ok [r] ∧ r.si = plainPolyval ((p0 :: ps).map PyVal.si) x.si ∧
+        r.dims = ((p0 :: ps).getLast (by simp)).dims) ∧
+    (¬ coeffsCompat (unitOfScalar x) (unitOfScalar ((p0 :: ps).getLast (by simp))) ps.length 0 (p0 :: ps) →
+      polyval (p0 :: ps) (.scalar x) = .error .valueError) ∧
+    polyval ([] : List (PyVal α)) (.scalar x) = .error .indexError :=
+  polyval_scalar_spec p0 ps x hp hx
+
+/-- **`polyfit` equivariant.** `np.polyfit` (`fit`, third party: a parameter) is run on the magnitudes in the units of `x[0]`, `y[0]`;
+    coefficient `i` of its result is returned times `u_y/u_x^(deg−i)`; abscissae of mixed dimension raise ValueError.
+    (That the PHYSICAL coefficients do not depend on the units additionally needs the scaling covariance of least squares,
+    `fit (a·x) (b·y) deg [i] = b/a^(deg−i) · fit x y deg [i]`, a property of NumPy checked by the oracle, not proved.) -/
+theorem helpers_equivariant_polyfit (fit : List α → List α → ℕ → List α) (x0 y0 : PyVal α) (xt yt : List (PyVal α)) (deg : ℕ)
+    (hxw : ∀ a ∈ x0 :: xt, a.WF) (hyw : ∀ a ∈ y0 :: yt, a.WF) :
+    ((∀ a ∈ xt, a.dims = x0.dims) → (∀ a ∈ yt, a.dims = y0.dims) →
+      ∃ r, polyfit fit (x0 :: xt) (y0 :: yt) deg = .ok r ∧
+        let cs := fit ((x0 :: xt).map fun a => a.si / (unitOfScalar x0).si) ((y0 :: yt).map fun a => a.si / (unitOfScalar y0).si) deg
+        r.length = cs.length ∧
+        ∀ i (h1 : i < r.length) (h2 : i < cs.length),
+          r[i].si = cs[i] * ((unitOfScalar y0).si * (unitOfScalar x0).si ^ ((i : ℤ) - (deg : ℤ))) ∧
+          r[i].dims = y0.dims.add (Dims.smul ((i : ℤ) - (deg : ℤ)) x0.dims)) ∧
+    ((∃ a ∈ xt, a.dims ≠ x0.dims) → polyfit fit (x0 :: xt) (y0 :: yt) deg = .error .valueError) :=
+  polyfit_spec fit x0 y0 xt yt deg hxw hyw
+
+/-- **`allclose` is unit independent** (`atol=None`, any ordered field): quantities of different dimension are never close (False, no
+    exception); otherwise the answer is the plain test `|a − b| ≤ |a|·rtol` on the physical values, so it cannot depend on
+    the units in which `a` and `b` are expressed (scale invariance). -/
+theorem helpers_allclose_unit_independent {β : Type} [Field β] [LinearOrder β] [IsStrictOrderedRing β]
+    (a b : PyVal β) (ha : a.WF) (hb : b.WF) (rtol : β) :
+    (a.dims = b.dims → allcloseScalar a b rtol none = .ok (decide (|a.si - b.si| ≤ |a.si| * rtol))) ∧
+    (a.dims ≠ b.dims → allcloseScalar a b rtol none = .ok false) :=
+  allcloseScalar_none a b ha hb rtol
+
+/-- **`logspace_from_lin` equivariant** (over ℝ, positive end points, unit of `start` with positive factor): the plain routine
+    `exp2(linspace(log2 s, log2 e, n))` on the magnitudes in the unit of `start`, times that unit; by its degree-1 homogeneity
+    the physical values are the plain routine applied to the physical end points; end points of different dimension raise. -/
+theorem helpers_equivariant_logspace [DecidableEq ℝ] (start stop : PyVal ℝ) (hs : start.WF) (he : stop.WF) (n : ℕ) :
+    let _ := realLog
+    let _ := realExp
+    (start.dims = stop.dims → 0 < (unitOfScalar start).si → 0 < start.si → 0 < stop.si →
+      ∃ r, logspaceFromLin start stop n = .ok r ∧
+        r = (logspaceCore (start.si / (unitOfScalar start).si) (stop.si / (unitOfScalar start).si) n).map
+              (timesUnit · (unitOfScalar start)) ∧
+        r.map PyVal.si = logspaceCore start.si stop.si n ∧ ∀ v ∈ r, v.dims = start.dims) ∧
+    (start.dims ≠ stop.dims → logspaceFromLin start stop n = .error .valueError) :=
+  logspaceFromLin_spec start stop hs he n
+
 /-
-helpers_equivariant — the part NOT proved here (stated in full for the record, covered by the correspondence check and the
-oracle only):
-  * polyval: for p with p[i].dims = dims u_y + (i−deg)·dims u_x,  (polyval p x).si = Σ_i p[i].si · x.si^(deg−i)   (Horner homogeneity)
-  * polyfit: physical coefficients independent of the units of x and y, GIVEN that np.polyfit (a parameter of the model) is
-    scaling-covariant:  fit (a·x) (b·y) deg [i] = b / a^(deg−i) · fit x y deg [i]
-  * allclose (atol=None): invariant under a change of units of either argument;  logspace_from_lin: homogeneous of degree 1 (ℝ, positive magnitudes)
-  * concatenate: stated for tile; the `concatGo` induction is the same argument
+helpers_equivariant — what remains outside the theorems: the scaling covariance of `np.polyfit` itself (third party, a parameter of
+the model; exercised by the oracle), `polyval` for a LIST argument x (element-wise application of the scalar theorem; model and
+correspondence cover it), and `allclose` with a non-None `atol` (correspondence and oracle).
 -/
 
 /-! ## documented quirks of the pinned code (mirrored by the model) -/
